@@ -41,6 +41,10 @@ class CustomBase(BaseException):
     pass
 
 
+class SkipResult(NoResultError):
+    """A subclass of the no-result signal."""
+
+
 class BadStrError(Exception):
     """An application error whose text cannot be produced (__str__ raises): nobody needs its text to process it."""
 
@@ -691,6 +695,8 @@ def _outcome(sc: Scenario, d: Any, tok: str, beh: Dict[str, Any], depvals: Any, 
         return val
     if out == "noresult":
         sc.trace.add("task_end", d, how="noresult")
+        if beh.get("noresult_sub"):
+            raise SkipResult  # an application's own spelling of the no-result signal
         raise NoResultError
     name = out.split(":", 1)[1]
     exc = EXC_POOL[name](tok, beh.get("value"))
@@ -895,7 +901,18 @@ def run_worker(spec: Dict[str, Any], real: bool = False) -> RunResult:
             pos = r.get("pos", 0)
             mws.insert(min(pos, len(mws)), rm)
         if mws:
-            broker.add_middlewares(*mws)
+            reg = spec.get("mw_reg", "add")
+            k_ = len(mws) // 2
+            if reg == "with":
+                broker.with_middlewares(*mws)
+            elif reg == "split_with":  # configured in two steps: the second call adds to what the first registered
+                broker.with_middlewares(*mws[:k_])
+                broker.with_middlewares(*mws[k_:])
+            elif reg == "add_then_with":
+                broker.add_middlewares(*mws[:k_])
+                broker.with_middlewares(*mws[k_:])
+            else:
+                broker.add_middlewares(*mws)
         if inmem:
             # the broker built its own Receiver in __init__; use the recording subclass with the same settings
             MonReceiver.sc = sc
@@ -916,6 +933,8 @@ def run_worker(spec: Dict[str, Any], real: bool = False) -> RunResult:
                 labels["own"] = tok
                 if m.get("timeout") is not None:
                     labels["timeout"] = str(m["timeout"]) if m.get("timeout_str") else m["timeout"]
+                if m.get("timeout_raw") is not None:
+                    labels["timeout"] = m["timeout_raw"]
                 sc.trace.add("send_begin", None, tok=tok)
                 try:
                     extra = [object()] if m.get("bad_arg") else []
@@ -977,6 +996,13 @@ def run_worker(spec: Dict[str, Any], real: bool = False) -> RunResult:
         # messages
         for idx, m in enumerate(spec.get("msgs", [])):
             tok = m.get("tok") or f"m{idx}"
+            if m.get("dup_of") is not None:
+                # the broker delivers a message a second time (at-least-once): byte-identical payload, own delivery
+                src_info = sc.deliveries[m["dup_of"]]
+                info = dict(src_info)
+                info.update({"at": m.get("at", 0.0), "dup_of": m["dup_of"]})
+                broker.new_delivery(info)
+                continue
             sc.beh[tok] = m.get("beh", {"dur": [], "out": "ok"})
             info = {
                 "tok": tok, "kind": m.get("kind", "valid"), "ackable": m.get("ackable", False),
@@ -1054,6 +1080,9 @@ def run_worker(spec: Dict[str, Any], real: bool = False) -> RunResult:
                 rr.outcome = "api-horizon"
             rr.R = loop.time() - T0
             sc.trace.add("listen_" + rr.outcome, err=rr.err)
+            for g in sc.keep:
+                if isinstance(g, threading.Event):
+                    g.set()  # executor threads parked for virtual time: run_receiver_task joins its pool on exit
             t.cancel()
             try:
                 await asyncio.wait({t}, timeout=1)
@@ -1133,6 +1162,12 @@ def run_worker(spec: Dict[str, Any], real: bool = False) -> RunResult:
     except WallWatchdog as exc:
         rr.outcome = "watchdog"
         rr.err = str(exc)
+    except (SystemExit, KeyboardInterrupt, GeneratorExit) as exc:
+        # an exception raised by a task function escaped into the event loop itself and stopped it: in a real
+        # worker process that ends the worker
+        rr.outcome = "loop-killed"
+        rr.err = repr(exc)
+        sc.trace.add("loop_killed", err=rr.err)
     finally:
         for g in sc.keep:
             if isinstance(g, threading.Event):
